@@ -34,7 +34,10 @@ macro_rules! prime_check {
             Ok(false)
         } else {
             match $value.bn.to_biguint() {
-                Some(bn) => Ok($f::check(&bn)),
+                // `check` alone accepts Carmichael numbers; `strong_check` (Baillie-PSW) adds a
+                // Lucas test, which needs an odd candidate
+                Some(bn) if bn.is_even() => Ok($f::check(&bn)),
+                Some(bn) => Ok($f::strong_check(&bn)),
                 None => Err(err_msg!($msg)),
             }
         }
